@@ -205,7 +205,7 @@ def run_parent(prop, tier, seed, nshards, clause_filter, scale):
         procs.append((i, out, subprocess.Popen(cmd, cwd=VERIF, env=env, stdout=log, stderr=subprocess.STDOUT), log))
     harness_errors = []
     merged = {}
-    shard_timeout = float(os.environ.get("VERIF_SHARD_TIMEOUT", "2400" if tier == "quick" else "21600"))
+    shard_timeout = float(os.environ.get("VERIF_SHARD_TIMEOUT", "1200" if tier == "quick" else "21600"))
     deadline = time.time() + shard_timeout
     crash_failures = []
     for i, out, p, log in procs:
